@@ -411,6 +411,8 @@ type RunCfg struct {
 	// Shared, when set, makes consecutive calls use ONE engine object and ONE data context
 	// (facts are re-added before every call), as an application that keeps both around does.
 	Shared *SharedEnv
+	// PreComplete: Complete() is called on the data context before the engine call
+	PreComplete bool
 	// Eng, when set, is used as is (no listeners are attached, MaxCycle is the engine's own):
 	// for executions that share one engine object across goroutines
 	Eng *engine.GruleEngine
@@ -571,6 +573,10 @@ func Run(kb *ast.KnowledgeBase, prog *Program, st State, cfg RunCfg) *RunResult 
 		return res
 	}
 	rec.live = liveReader(dc, st)
+	if cfg.PreComplete {
+		// a data context that an earlier run (or the caller) has completed
+		dc.Complete()
+	}
 	eng := engine.NewGruleEngine()
 	if cfg.Shared != nil {
 		if cfg.Shared.Eng == nil {
